@@ -176,7 +176,7 @@ impl<A: HApi> HSut<A> {
         let name = it.next()?;
         const NAMES: &[&str] = &["init", "open", "ins", "rem", "has", "size", "cap", "full", "empty", "rhas", "rsize", "rcap", "rfull", "rempty", "iter", "fill"];
         let n = NAMES.iter().find(|n| **n == name)?;
-        Some(Op { name: n, args: it.filter_map(|a| a.parse().ok()).collect() })
+        Some(Op { name: n, args: it.filter_map(|a| a.parse().ok()).collect(), blob: None })
     }
 }
 
